@@ -1,10 +1,10 @@
 SPECIFICATION Spec
 CONSTANT Family = "C04"
 CONSTANT MaxLen = 1
-CONSTANT Depth = 1
-CONSTANT SmallLeaves = FALSE
+CONSTANT Depth = 2
+CONSTANT SmallLeaves = TRUE
 CONSTANT MagTable <- Mags
-CONSTANT CallImmediatePlain = TRUE
+CONSTANT CallImmediatePlain = FALSE
 CONSTANT JudgeAmbiguousDelay = FALSE
 INVARIANT InstrRoundTrip
 INVARIANT InstrPrintStable
@@ -13,4 +13,5 @@ INVARIANT Placeholders
 INVARIANT ProgramLevel
 INVARIANT ListingFixpoint
 INVARIANT GateParamValue
+INVARIANT Emit
 CHECK_DEADLOCK FALSE
